@@ -783,7 +783,11 @@ Proof. split; vm_compute; reflexivity. Qed.
 
 Theorem long_agreement_full_refuted : ~ long_agreement_full.
 Proof.
-  intros H. specialize (H any_pf (fun _ _ => 0%Z) txt_2p53_1 9007199254740993%Z eq_refl eq_refl eq_refl).
+  intros H.
+  assert (H1 : parse_dec txt_2p53_1 = Some 9007199254740993%Z) by (vm_compute; reflexivity).
+  assert (H2 : in_width 64 9007199254740993%Z = true) by (vm_compute; reflexivity).
+  assert (H3 : any_pf 0 txt_2p53_1 = Some (f64_of_Z 9007199254740993%Z)) by (vm_compute; reflexivity).
+  specialize (H any_pf (fun _ _ => 0%Z) txt_2p53_1 9007199254740993%Z H1 H2 H3).
   destruct precision_witness as [A B]. rewrite A, B in H. discriminate.
 Qed.
 
